@@ -17,7 +17,8 @@ HOSTILE = ["a", 'a"', '"', "\\", '", "', "1", 1, "", "a.b", "a/b", "[", '["a"]',
            # non-ASCII text: the two lone surrogates of U+1F600 as a 2-character key, the astral character itself, a lone surrogate,
            # Latin-1, NUL, a line separator, the text of a JSON escape; bool keys (a bool is an int: True == 1, False == 0 as dict keys
            # of DIFFERENT dicts must still come back as the type they went in), negative and large integers
-           "\ud83d\ude00", "\U0001F600", "\ud83d", "\u00e9", "\x00", "\u2028", "\\ud83d", "\\u00e9", True, False, -1, 10, 2, "10", "2", 2 ** 40]
+           "\ud83d\ude00", "\U0001F600", "\ud83d", "\u00e9", "\x00", "\u2028", "\\ud83d", "\\u00e9", True, False, -1, 10, 2, "10", "2", 2 ** 40,
+           "01", "1.0", "1e0", "-0", "+1", " 1", "1 ", "null", "true", "NaN", "Infinity"]
 
 ORACLE = r"""
 ---- MODULE StateDictOracle ----
